@@ -229,9 +229,80 @@ class App:
 
 
 def run_script(case):
+    if _COV is not None:
+        return _COV.traced(_run_script, case)
+    return _run_script(case)
+
+
+def _run_script(case):
     ctx = Ctx(case)
     a = App(ctx)
     return [a.run(c) for c in case['cmds']]
+
+
+# --------------------------------------------------------------------------
+# dev-only: VERIF_COVERAGE=1 ./check Cxx --no-coq  -> /tmp/routerC_cov_<ID>.json
+# (which lines of the anchored router files the run executes; see tools/props/routerC_cov.py)
+# --------------------------------------------------------------------------
+
+class _Coverage:
+    FILES = ('ombott/router/radidict.py', 'ombott/router/radirouter.py', 'ombott/router/filter_factory.py',
+             'ombott/router/parser.py', 'ombott/router/sym_stream.py', 'ombott/ombott.py')
+
+    def __init__(self):
+        import atexit
+        self.hit = {}
+        atexit.register(self.dump)
+
+    def _local(self, frame, event, arg):
+        if event == 'line':
+            self.hit[self._cur].add(frame.f_lineno)
+        return self._local
+
+    def _global(self, frame, event, arg):
+        fn = frame.f_code.co_filename
+        for suf in self.FILES:
+            if fn.endswith(suf):
+                self._cur = suf
+                self.hit.setdefault(suf, set()).add(frame.f_lineno)
+                return self._local_for(suf)
+        return None
+
+    def _local_for(self, suf):
+        hit = self.hit.setdefault(suf, set())
+
+        def tr(frame, event, arg):
+            if event == 'line':
+                hit.add(frame.f_lineno)
+            return tr
+        return tr
+
+    def traced(self, f, *a):
+        import sys
+        old = sys.gettrace()
+        sys.settrace(self._global)
+        try:
+            return f(*a)
+        finally:
+            sys.settrace(old)
+
+    def dump(self):
+        import json
+        import os
+        import sys
+        pid = os.path.basename(sys.argv[1]) if len(sys.argv) > 1 else 'X'
+        path = '/tmp/routerC_cov_%s.json' % pid
+        old = {}
+        if os.environ.get('VERIF_COVERAGE') == 'append' and os.path.exists(path):
+            old = json.load(open(path))
+        for k, v in self.hit.items():
+            old[k] = sorted(set(old.get(k, [])) | v)
+        with open(path, 'w') as fh:
+            json.dump(old, fh)
+
+
+import os as _os
+_COV = _Coverage() if _os.environ.get('VERIF_COVERAGE') else None
 
 
 # --------------------------------------------------------------------------
